@@ -297,9 +297,9 @@ class Env:
     """client + simulated network + event recorder"""
 
     def __init__(self, c, loop, reconnect_auto, login_verdict, server_plan=lambda i: 'ok', peer_mode='slow',
-                 search_timeout=0):
+                 search_timeout=0, stubbed=None):
         self.c, self.loop = c, loop
-        self.stubbed = c.symbolic
+        self.stubbed = c.symbolic if stubbed is None else stubbed
         self.net = SimNet(loop, self.stubbed, login_verdict, server_plan, peer_mode)
         s = Settings(
             credentials=CredentialsSettings(username=OWN, password='pw'),
